@@ -860,6 +860,9 @@ func (s *Store) DeleteShard(shardID uint64) error {
 				if len(errs) != 0 {
 					return errors.Join(errs...)
 				}
+
+				// The measurements' tag value maps still reference the dropped series.
+				index.Rebuild()
 			}
 
 			ss.ForEach(func(id uint64) {
